@@ -1,10 +1,11 @@
 (* C06 — Unselected features are inert; selection reads exact zeros; groups stay whole.
    Statements only; every proof is [exact <lemma of Proofs/Selection.v>].  Forward passes are those of
-   Model/Forward.v.  The two facts C06 needs about the proximal operators (C05's subject) appear as explicit
+   Model/Forward.v.  The two facts C06 needs about the proximal operators (C05's subject) appear first as explicit
    premises [common_factor] / [hier_feasible] / [row_feasible] on the operator's output (they are Section hypotheses
-   in Proofs/Selection.v); everything else is unconditional. *)
+   in Proofs/Selection.v), so that C06_* up to C06_update_groups_whole_and_inert do not depend on C05's files; the last
+   block discharges them with C05's theorems (Proofs/SelectionProx.v), under C05's guards. *)
 From Coq Require Import Reals Lra List Arith Permutation Sorted.
-From GV Require Import Common.Num Common.NumR Model.Forward Model.Selection Proofs.Selection.
+From GV Require Import Common.Num Common.NumR Model.Forward Model.Selection Proofs.Selection Proofs.SelectionProx.
 Import ListNotations.
 Open Scope R_scope.
 
@@ -119,15 +120,19 @@ Proof.
   split; [exact (@train_last_is_update) | exact adam_lr_R].
 Qed.
 
-(* end to end, sparse MLP without groups: if the plain proximal operator returns hierarchy-feasible weights (C05), then
-   after any _update_weights call every feature outside get_selection() is inert *)
+(* end to end, sparse MLP without groups: if the plain proximal operator returns hierarchy-feasible weights whenever
+   threshold and M are non-negative and the skip rows it receives are non-zero (C05's theorem and guards), then after any
+   _update_weights call made under these guards every feature outside get_selection() is inert *)
 Theorem C06_update_unselected_inert_mlp :
   forall (St : Type) (opt_step : St -> mlp_params -> mlp_params -> St * mlp_params) (opt_lr : St -> R)
          (prox : (nat -> nat -> R) -> (nat -> nat -> R) -> R -> R -> (nat -> nat -> R) * (nat -> nat -> R))
          (gprox : list (list nat) -> (nat -> nat -> R) -> (nat -> nat -> R) -> R -> R -> (nat -> nat -> R) * (nat -> nat -> R))
          (d h K : nat),
-  (forall Ws W1 thr M, row_feasible d h K M (fst (prox Ws W1 thr M)) (snd (prox Ws W1 thr M))) ->
+  (forall Ws W1 thr M, 0 <= thr -> 0 <= M -> (forall j, (j < d)%nat -> ~ row_zero K Ws j) ->
+     row_feasible d h K M (fst (prox Ws W1 thr M)) (snd (prox Ws W1 thr M))) ->
   forall alpha M s w g,
+  0 <= alpha * opt_lr (fst (opt_step s w g)) -> 0 <= M ->
+  (forall j, (j < d)%nat -> ~ row_zero K (mWskip (snd (opt_step s w g))) j) ->
   let w' := snd (update_weights_mlp Rops opt_step opt_lr prox gprox None alpha M s w g) in
   forall X X' : nat -> nat -> R, (forall j, In j (selection Rops d K (mWskip w')) -> forall i, X i j = X' i j) ->
   forall i k, (k < K)%nat ->
@@ -135,20 +140,22 @@ Theorem C06_update_unselected_inert_mlp :
     sparse_mlp_infer Rops d h K (mW1 w') (mb1 w') (mW2 w') (mb2 w') (mWskip w') X' i k.
 Proof. exact (@update_unselected_inert_mlp). Qed.
 
-(* end to end with declared groups (a cover of [0,d) with indices < d, as check_groups returns): if the group operator
-   multiplies the skip rows of each group by one factor and returns hierarchy-feasible weights (C05), and the skip rows
-   handed to it by the optimiser are all non-zero, then after _update_weights every group is selected as a whole or
-   discarded as a whole, and every feature outside get_selection() is inert *)
+(* end to end with declared groups (groups_ = Some gs, well-formed and covering [0,d) as check_groups returns): if the
+   group operator multiplies the skip rows of each group by one factor and returns hierarchy-feasible weights (C05, under
+   its guards), and the skip rows handed to it by the optimiser are all non-zero, then after _update_weights every group
+   is selected as a whole or discarded as a whole, and every feature outside get_selection() is inert *)
 Theorem C06_update_groups_whole_and_inert :
   forall (St : Type) (opt_step : St -> mlp_params -> mlp_params -> St * mlp_params) (opt_lr : St -> R)
          (prox : (nat -> nat -> R) -> (nat -> nat -> R) -> R -> R -> (nat -> nat -> R) * (nat -> nat -> R))
          (gprox : list (list nat) -> (nat -> nat -> R) -> (nat -> nat -> R) -> R -> R -> (nat -> nat -> R) * (nat -> nat -> R))
          (d h K : nat),
-  (forall gs Ws W1 thr M, hier_feasible h K M gs (fst (gprox gs Ws W1 thr M)) (snd (gprox gs Ws W1 thr M))) ->
-  (forall gs Ws W1 thr M, common_factor K gs Ws (fst (gprox gs Ws W1 thr M))) ->
+  (forall gs Ws W1 thr M, groups_wf d gs -> 0 <= thr -> 0 <= M ->
+     (forall g, In g gs -> forall j, In j g -> ~ row_zero K Ws j) ->
+     hier_feasible h K M gs (fst (gprox gs Ws W1 thr M)) (snd (gprox gs Ws W1 thr M)) /\
+     common_factor K gs Ws (fst (gprox gs Ws W1 thr M))) ->
   forall gs alpha M s w g,
-  (forall j, (j < d)%nat -> exists g0, In g0 gs /\ In j g0) ->
-  (forall g0, In g0 gs -> forall j, In j g0 -> (j < d)%nat) ->
+  groups_wf d gs -> (forall j, (j < d)%nat -> exists g0, In g0 gs /\ In j g0) ->
+  0 <= alpha * opt_lr (fst (opt_step s w g)) -> 0 <= M ->
   (forall g0, In g0 gs -> forall j, In j g0 -> ~ row_zero K (mWskip (snd (opt_step s w g))) j) ->
   let w' := snd (update_weights_mlp Rops opt_step opt_lr prox gprox (Some gs) alpha M s w g) in
   (forall g0, In g0 gs -> (forall j, In j g0 -> In j (selection Rops d K (mWskip w'))) \/
@@ -158,6 +165,64 @@ Theorem C06_update_groups_whole_and_inert :
     sparse_mlp_infer Rops d h K (mW1 w') (mb1 w') (mW2 w') (mb2 w') (mWskip w') X i k =
     sparse_mlp_infer Rops d h K (mW1 w') (mb1 w') (mW2 w') (mb2 w') (mWskip w') X' i k.
 Proof. exact (@update_unselected_inert_mlp_groups). Qed.
+
+(* ---- the premises discharged with C05's theorems (Proofs/Prox.v) about Model/Prox.v ----
+   lin_prox_fn / glin_prox_fn / mlp_prox_fn / gmlp_prox_fn (Proofs/SelectionProx.v) are C05's linear_prox,
+   group_linear_prox, mlp_prox, group_mlp_prox transported from lists of rows to functions nat -> nat -> R. *)
+Theorem C06_prox_facts_from_C05 : forall d h K,
+  (forall W thr, common_factor K (singletons d) W (lin_prox_fn d K W thr)) /\
+  (forall gs W thr, groups_wf d gs -> common_factor K gs W (glin_prox_fn d K gs W thr)) /\
+  (forall Ws W1 thr M, 0 <= thr -> 0 <= M -> (forall j, (j < d)%nat -> ~ row_zero K Ws j) ->
+     row_feasible d h K M (fst (mlp_prox_fn d h K Ws W1 thr M)) (snd (mlp_prox_fn d h K Ws W1 thr M)) /\
+     common_factor K (singletons d) Ws (fst (mlp_prox_fn d h K Ws W1 thr M))) /\
+  (forall gs Ws W1 thr M, groups_wf d gs -> 0 <= thr -> 0 <= M ->
+     (forall g, In g gs -> forall j, In j g -> ~ row_zero K Ws j) ->
+     hier_feasible h K M gs (fst (gmlp_prox_fn d h K gs Ws W1 thr M)) (snd (gmlp_prox_fn d h K gs Ws W1 thr M)) /\
+     common_factor K gs Ws (fst (gmlp_prox_fn d h K gs Ws W1 thr M))) /\
+  (forall groups r, check_groups groups d = Some r -> groups_wf d r).
+Proof.
+  intros d h K. split; [exact (lin_prox_fn_factor d K)|]. split; [exact (glin_prox_fn_factor d K)|].
+  split; [exact (mlp_prox_fn_facts d h K)|]. split; [exact (gmlp_prox_fn_facts d h K)|].
+  intros groups r. exact (check_groups_wf groups d r).
+Qed.
+
+(* hence, with the modelled operators, unconditionally in the operators (guards: threshold and M non-negative, skip rows
+   handed to the proximal step non-zero): *)
+Theorem C06_unselected_inert_mlp_with_C05 :
+  forall (St : Type) (opt_step : St -> mlp_params -> mlp_params -> St * mlp_params) (opt_lr : St -> R) (d h K : nat)
+         alpha M s w g,
+  0 <= alpha * opt_lr (fst (opt_step s w g)) -> 0 <= M ->
+  (forall j, (j < d)%nat -> ~ row_zero K (mWskip (snd (opt_step s w g))) j) ->
+  let w' := snd (update_weights_mlp Rops opt_step opt_lr (mlp_prox_fn d h K) (gmlp_prox_fn d h K) None alpha M s w g) in
+  forall X X' : nat -> nat -> R, (forall j, In j (selection Rops d K (mWskip w')) -> forall i, X i j = X' i j) ->
+  forall i k, (k < K)%nat ->
+    sparse_mlp_infer Rops d h K (mW1 w') (mb1 w') (mW2 w') (mb2 w') (mWskip w') X i k =
+    sparse_mlp_infer Rops d h K (mW1 w') (mb1 w') (mW2 w') (mb2 w') (mWskip w') X' i k.
+Proof. exact update_unselected_inert_mlp_c05. Qed.
+
+Theorem C06_groups_whole_and_inert_mlp_with_C05 :
+  forall (St : Type) (opt_step : St -> mlp_params -> mlp_params -> St * mlp_params) (opt_lr : St -> R) (d h K : nat)
+         gs alpha M s w g,
+  groups_wf d gs -> (forall j, (j < d)%nat -> exists g0, In g0 gs /\ In j g0) ->
+  0 <= alpha * opt_lr (fst (opt_step s w g)) -> 0 <= M ->
+  (forall g0, In g0 gs -> forall j, In j g0 -> ~ row_zero K (mWskip (snd (opt_step s w g))) j) ->
+  let w' := snd (update_weights_mlp Rops opt_step opt_lr (mlp_prox_fn d h K) (gmlp_prox_fn d h K) (Some gs) alpha M s w g) in
+  (forall g0, In g0 gs -> (forall j, In j g0 -> In j (selection Rops d K (mWskip w'))) \/
+                          (forall j, In j g0 -> ~ In j (selection Rops d K (mWskip w')))) /\
+  forall X X' : nat -> nat -> R, (forall j, In j (selection Rops d K (mWskip w')) -> forall i, X i j = X' i j) ->
+  forall i k, (k < K)%nat ->
+    sparse_mlp_infer Rops d h K (mW1 w') (mb1 w') (mW2 w') (mb2 w') (mWskip w') X i k =
+    sparse_mlp_infer Rops d h K (mW1 w') (mb1 w') (mW2 w') (mb2 w') (mWskip w') X' i k.
+Proof. exact update_groups_whole_and_inert_c05. Qed.
+
+Theorem C06_groups_whole_linear_with_C05 :
+  forall (St : Type) (opt_step : St -> lin_params -> lin_params -> St * lin_params) (opt_lr : St -> R) (d K : nat)
+         gs alpha s w g, groups_wf d gs ->
+  (forall g0, In g0 gs -> forall j, In j g0 -> ~ row_zero K (lW (snd (opt_step s w g))) j) ->
+  let w' := snd (update_weights_linear Rops opt_step opt_lr (lin_prox_fn d K) (glin_prox_fn d K) (Some gs) alpha s w g) in
+  forall g0, In g0 gs -> (forall j, In j g0 -> In j (selection Rops d K (lW w'))) \/
+                         (forall j, In j g0 -> ~ In j (selection Rops d K (lW w'))).
+Proof. exact update_groups_whole_linear_c05. Qed.
 
 (* non-vacuity: a concrete partial group list is accepted and completed; a concrete weight matrix has a selected and an
    unselected feature, and two inputs that differ (hugely) in the unselected column satisfy the inertness hypothesis *)
@@ -192,3 +257,7 @@ Print Assumptions C06_groups_completed_partition.
 Print Assumptions C06_update_is_prox_of_step.
 Print Assumptions C06_update_unselected_inert_mlp.
 Print Assumptions C06_update_groups_whole_and_inert.
+Print Assumptions C06_prox_facts_from_C05.
+Print Assumptions C06_unselected_inert_mlp_with_C05.
+Print Assumptions C06_groups_whole_and_inert_mlp_with_C05.
+Print Assumptions C06_groups_whole_linear_with_C05.
